@@ -106,6 +106,9 @@ def bdiff_task(task):
     return sh
 
 
+_YB = {}
+
+
 def bizmap_task(task):
     """YYYY-MM-DDb denotes the DD-th Mon-Fri day of the month"""
     bindir, yms = task
@@ -152,20 +155,32 @@ def bizmap_task(task):
         if (len(lines) + len(rep)) % 4 != ("ymd", "ywd", "yd", "ymcw").index(rep) and rep != "ymd":
             continue
         src = [addsweep.ktext(rep, date.fromisoformat(e).toordinal())[0] for e in exp]
-        argv3 = [str(bindir / "dconv"), "-f", "%Y-%m-%db"]
+        argv3 = [str(bindir / "dconv"), "-f", "%Y-%m-%db|%jb"]
         r3 = run(argv3, stdin=("\n".join(src) + "\n").encode(), cpu=60, wall=300)
         sh.procs += 1
         sh.check_san(r3, "san", "bizmap:back:san")
         outs3, _ = align_lines(src, r3)
         for k, got in enumerate(outs3):
             idx = int(lines[k][8:10])
+            o_ = date.fromisoformat(exp[k]).toordinal()
+            y_ = cal.Day(o_).y
+            if y_ not in _YB:
+                j1 = date(y_, 1, 1).toordinal()
+                acc, n_ = [0] * 368, 0
+                for i_ in range(0, 367):
+                    if dur.is_bday(j1 + i_):
+                        n_ += 1
+                    acc[i_ + 1] = n_
+                _YB[y_] = (j1, acc)
+            want3 = "%s|%03db" % (lines[k], _YB[y_][1][o_ - _YB[y_][0] + 1])
             c = ("bizmap-back", rep, "idx%d" % idx if idx > 19 or idx < 3 else "idx-mid", WDN[(date.fromisoformat(exp[k]).toordinal() - 1) % 7])
-            if got == lines[k]:
+            if got == want3:
                 sh.ok("bizmap", c)
             else:
-                sh.bad("bizmap", "bizmap:back:%s:err=%s" % (rep, addsweep.err_shape(got, ())),
-                       "dconv %s -f %%Y-%%m-%%db -> %r, it is the %d-th Mon-Fri day of its month: %s" % (src[k], got, idx, lines[k]),
-                       dict(argv=argv3, input=src[k], expected=lines[k], observed=got), cls=c)
+                sh.bad("bizmap", "bizmap:back:%s:err=%s" % (rep, "jb" if got and got.split("|")[0] == lines[k] else addsweep.err_shape(got, ())),
+                       "dconv %s -f '%%Y-%%m-%%db|%%jb' -> %r, it is the %d-th Mon-Fri day of its month and the %s-th of its year: %s" %
+                       (src[k], got, idx, want3[-4:-1], want3),
+                       dict(argv=argv3, input=src[k], expected=want3, observed=got), cls=c)
     # the same dates through the other exits of the business-day representation: count-weekday form and its count,
     # business day of the year, day number
     ords = [date.fromisoformat(e).toordinal() for e in exp]
@@ -255,7 +270,7 @@ def main(tier, seed):
                 "found by stepping over date.weekday(); N in +-%s + random up to 200000; every weekday as start "
                 "incl. weekend starts; (2) ddiff A B -f %%db for B = A (+) n business days must print n (inversion), "
                 "and for arbitrary pairs the Mon-Fri count of the half-open interval (either end open accepted); "
-                "(3) every YYYY-MM-DDb (all months%s, all indices) through dconv -f %%F (standard parser and -i '%%Y-%%m-%%db'), -f '%%Y-%%m-%%c-%%w|%%c', -f %%jb and -f ldn, and the civil date (ymd, ywd, yd, ymcw spelling) back through -f %%Y-%%m-%%db. distinct_nontrivial = "
+                "(3) every YYYY-MM-DDb (all months%s, all indices) through dconv -f %%F (standard parser and -i '%%Y-%%m-%%db'), -f '%%Y-%%m-%%c-%%w|%%c', -f %%jb and -f ldn, and the civil date (ymd, ywd, yd, ymcw spelling) back through -f '%%Y-%%m-%%db|%%jb'. distinct_nontrivial = "
                 "distinct (monitor, calendar, start weekday, n mod 5, sign, week-wrap)" %
                 (CALS, N_LIST, " of every third year" if quick else ""))
     ctx.assumptions = ["n = 0 is excluded by the statement",
